@@ -5,12 +5,14 @@ import (
 	"io"
 	"net/http"
 	"net/url"
+	"sort"
 	"unicode/utf8"
 
 	"MODULE/restli"
 	common "MODULE/restlidata/generated/com/linkedin/restli/common"
 	verif "MODULE/zzverif"
 	"MODULE/zzvt/vt"
+	"MODULE/zzvt/vtr/info"
 	"MODULE/zzvt/vtr/parts"
 	"MODULE/zzvt/vtr/things"
 )
@@ -295,6 +297,117 @@ func Harness_C02_BatchOutcomes(op int) {
 	}
 	verif.Assert(nres == wres && nerr == werr && nstat == wstat, "per-key outcomes of the batch call were lost or invented")
 	verif.Assert(okContent, "per-key outcome of the batch call differs from what the resource returned")
+	verif.Cover("fidelity")
+}
+
+func c02SortedKeys(m map[string]*vt.Item_PartialUpdate) []string {
+	var ks []string
+	for k := range m {
+		ks = append(ks, k)
+	}
+	sort.Strings(ks)
+	return ks
+}
+
+// Harness_C02_More: the remaining method kinds and resource shapes, one call
+// each, with a symbolic key of n bytes where the method has one:
+// 0 partial_update, 1 batch_update, 2 batch_partial_update, 3 batch_delete,
+// 4 get_all, 5 finder with metadata (enum parameter), 6 action on an entity,
+// 7 simple sub-resource get, 8 its update, 9 its delete, 10 its action with an
+// optional parameter, 11 create with returned entity on a sub-resource.
+func Harness_C02_More(kind, n int) {
+	m := &mockThings{item: &vt.Item{Name: "x"}}
+	threshold := c02Thresholds[verif.Choose(len(c02Thresholds))]
+	lb := &loopback{h: c02Server(m, "/")}
+	u, _ := url.Parse("http://h")
+	c := &restli.Client{Client: &http.Client{Transport: lb}, HostnameResolver: &restli.SimpleHostnameResolver{Hostname: u},
+		StrictResponseDeserialization: verif.Bool(), QueryTunnellingThreshold: threshold}
+	tc, pc, ic := things.NewClient(c), parts.NewClient(c), info.NewClient(c)
+	key := c02Key(n)
+	one := func(resource, method string) call {
+		verif.Assert(len(m.calls) == 1, "the call did not reach exactly one resource method")
+		got := m.calls[0]
+		verif.Assert(got.resource == resource && got.method == method, "the call reached "+got.resource+"."+got.method+" instead of "+resource+"."+method)
+		return got
+	}
+	switch kind {
+	case 0:
+		nm := "new"
+		p := &vt.Item_PartialUpdate{}
+		p.Set_Fields.Name = &nm
+		p.Delete_Fields.Tags = true
+		err := tc.PartialUpdate(key, p)
+		got := one("things", "partial_update")
+		verif.Assert(err == nil && got.key == key, "key differs")
+		verif.Assert(got.patch != nil && got.patch.Set_Fields.Name != nil && *got.patch.Set_Fields.Name == "new" && got.patch.Delete_Fields.Tags && !got.patch.Delete_Fields.Note, "patch seen by the resource differs")
+	case 1:
+		verif.Assume(utf8.ValidString(key) && key != "zz")
+		_, err := tc.BatchUpdate(map[string]*vt.Item{key: {Name: "a"}, "zz": {Name: "b"}})
+		got := one("things", "batch_update")
+		verif.Assert(err == nil && len(got.items) == 2 && got.items[key] != nil && got.items[key].Name == "a" && got.items["zz"] != nil && got.items["zz"].Name == "b", "entities seen by the resource differ")
+	case 2:
+		verif.Assume(utf8.ValidString(key) && key != "zz")
+		nm := "n"
+		p := &vt.Item_PartialUpdate{}
+		p.Set_Fields.Name = &nm
+		_, err := tc.BatchPartialUpdate(map[string]*vt.Item_PartialUpdate{key: p, "zz": p})
+		got := one("things", "batch_partial_update")
+		want := []string{key, "zz"}
+		sort.Strings(want)
+		verif.Assert(err == nil && len(got.keys) == 2 && got.keys[0] == want[0] && got.keys[1] == want[1], "keys seen by the resource differ")
+	case 3:
+		verif.Assume(utf8.ValidString(key) && key != "zz")
+		_, err := tc.BatchDelete([]string{key, "zz"})
+		got := one("things", "batch_delete")
+		verif.Assert(err == nil && len(got.keys) == 2 && ((got.keys[0] == key && got.keys[1] == "zz") || (got.keys[1] == key && got.keys[0] == "zz")), "keys seen by the resource differ")
+	case 4:
+		res, err := tc.GetAll()
+		one("things", "get_all")
+		verif.Assert(err == nil && res != nil, "get_all failed")
+	case 5:
+		col := []vt.Color{vt.Color_RED, vt.Color_GREEN, vt.Color_BLUE}[verif.Choose(3)]
+		res, err := tc.FindByWithMeta(&things.FindByWithMetaParams{C: col})
+		got := one("things", "finder:withMeta")
+		verif.Assert(got.key2 == int64(col), "enum parameter seen by the resource differs")
+		verif.Assert(err == nil && res != nil && len(res.Elements) == 1 && res.Elements[0].Name == "m", "elements differ")
+		verif.Assert(res.Metadata != nil && res.Metadata.Total == 41, "finder metadata lost")
+	case 6:
+		err := tc.TouchAction(key)
+		got := one("things", "action:touch")
+		verif.Assert(err == nil && got.key == key, "key of the entity-level action differs")
+	case 7:
+		in, err := ic.Get(key)
+		got := one("info", "get")
+		verif.Assert(err == nil && got.key == key && in != nil && in.S == "i", "simple sub-resource get differs")
+	case 8:
+		err := ic.Update(key, &vt.Inner{S: "upd"})
+		got := one("info", "update")
+		verif.Assert(err == nil && got.key == key && got.msg == "upd", "simple sub-resource update differs")
+	case 9:
+		err := ic.Delete(key)
+		got := one("info", "delete")
+		verif.Assert(err == nil && got.key == key, "simple sub-resource delete differs")
+	case 10:
+		var hard *bool
+		want := int64(0)
+		if verif.Bool() {
+			h := verif.Bool()
+			hard = &h
+			want = 1
+			if h {
+				want = 2
+			}
+		}
+		res, err := ic.ResetAction(key, &info.ResetActionParams{Hard: hard})
+		got := one("info", "action:reset")
+		verif.Assert(err == nil && got.key == key && got.key2 == want, "optional action parameter seen by the resource differs")
+		verif.Assert(res == 1+int32(want), "action result differs")
+	default:
+		created, err := pc.Create(key, &vt.Leaf{V: "lv"})
+		got := one("parts", "create")
+		verif.Assert(err == nil && got.key == key && got.msg == "lv", "sub-resource create differs")
+		verif.Assert(created != nil && created.Id == 5 && created.Entity != nil && created.Entity.V == "lv", "created id or returned entity differs")
+	}
 	verif.Cover("fidelity")
 }
 
